@@ -24,6 +24,7 @@ import z3
 Z3_TIMEOUT_MS = int(os.environ.get("VERIF_Z3_TIMEOUT_MS", "60000"))
 CVC5_TIMEOUT_MS = int(os.environ.get("VERIF_CVC5_TIMEOUT_MS", "40000"))
 Z3_FAST_MS = int(os.environ.get("VERIF_Z3_FAST_MS", "3000"))
+DECIDE_TIMEOUT_MS = int(os.environ.get("VERIF_DECIDE_TIMEOUT_MS", "10000"))
 ITE_SPLIT_LEAVES = int(os.environ.get("VERIF_ITE_SPLIT_LEAVES", "4000"))
 ITE_SPLIT_DEPTH = int(os.environ.get("VERIF_ITE_SPLIT_DEPTH", "400"))
 ITE_SPLIT_SECONDS = float(os.environ.get("VERIF_ITE_SPLIT_SECONDS", "240"))
@@ -884,7 +885,19 @@ class Ctx:
             self.solver.add(e)
         for e in extra:
             self.solver.add(e)
-        r = self.solver.check()
+        import threading
+
+        self.solver.set("timeout", DECIDE_TIMEOUT_MS)
+        wd = threading.Timer(DECIDE_TIMEOUT_MS / 1000.0 * 1.5 + 2.0, self.solver.ctx.interrupt)
+        wd.daemon = True
+        wd.start()
+        try:
+            r = self.solver.check()
+        except z3.Z3Exception:
+            r = z3.unknown
+        finally:
+            wd.cancel()
+            self.solver.set("timeout", Z3_TIMEOUT_MS)
         self.solver.pop()
         return r
 
@@ -1001,7 +1014,18 @@ class Ctx:
         for h in hyps:
             self.solver.add(h)
         self.solver.add(negated_goal)
-        r = self.solver.check()
+        # z3's own timeout is only polled between solver steps; a watchdog interrupts checks that overrun
+        import threading
+
+        wd = threading.Timer(timeout_ms / 1000.0 * 1.5 + 2.0, self.solver.ctx.interrupt)
+        wd.daemon = True
+        wd.start()
+        try:
+            r = self.solver.check()
+        except z3.Z3Exception:
+            r = z3.unknown
+        finally:
+            wd.cancel()
         model = self.solver.model() if r == z3.sat else None
         smt2 = self.solver.to_smt2() if r == z3.unknown else None
         self.solver.pop()
